@@ -612,6 +612,12 @@ def run(rep, tier):
     for cfg5, nss5 in ((('K1', ('::avx2::',)), ('K3', ('::sse::',))) if tier == 'quick' else (('K1', ('::avx2::',)), ('K3', ('::sse::',)), ('K4', ('::avx2::', '::sse::')))):
         f5 = get_facts(cfg5)
         rep.unit(f5)
+        if cfg5 == 'K1':
+            # 'malformed escapes are rejected': escape table, hex decoding (evaluated), surrogate rules (shared with C05)
+            ok5 = _c05.clause_a(f5, rep)
+            _c05.clause_b(f5, rep, ok5)
+            _c05.clause_b2(f5, rep)
+            _c05.clause_c(f5, rep, tier)
         _c05.clause_e(f5, rep, nss5)
         _c05.clause_f(f5, rep, nss5)
         _c05.clause_g(f5, rep, nss5)
